@@ -149,6 +149,12 @@ def run(ctx):
     from rules import c17
     c17.r3_underflow(ctx, prog, rule_id='C14.R3b', text='the slot id is cut from the token serial without an unsigned wrap (a token without serial yet must not make C_Initialize throw)', floor=1,
                      only={g['qname'] for g in prog.functions.values() if os.path.basename(g['file']) == 'SlotManager.cpp'})
+    # isolation between tokens and persistence of PINs rest on rules other properties own: the per-slot scans of the session table (login state of token A must not depend on
+    # sessions of token B), the blob that a PIN change persists, and the session handle session objects are booked under
+    from rules import c03, c04, c11
+    c03.r7_table_scans(ctx, prog, rule_id='C14.R5')
+    c04.r2_oldpin(ctx, prog, rule_id='C14.R6')
+    c11.r6_store_key(ctx, prog, rule_id='C14.R7')
 
 
 MUTANTS = [
